@@ -2,6 +2,8 @@
 import math
 import warnings
 
+import sys
+
 import numpy as np
 
 from .. import common, gen_all, gen_formulas, curves, fits
@@ -213,7 +215,7 @@ def replay(rec):
     pl = rec.get("payload") or {}
     cfg = pl.get("cfg")
     if not cfg or "true" not in cfg:
-        return True
+        return common.replay_by_rerun(sys.modules[__name__], rec)
 
     class R:
         bad = False
